@@ -155,7 +155,29 @@ def _eval_sp(item):
             pass
         except Exception as e:  # noqa
             bad("unknown-id-no-keyerror", f"unknown id raised {type(e).__name__}")
-    return {"cls": c01._shape_class(sp), "viol": viol, "n": 12, "nt": jid, "sample": {"statepoint": sp, "id": jid}}
+    # a Project object obtained through a RELATIVE path keeps meaning the same directory when the working directory
+    # changes afterwards (signac itself changes it inside `with job:`)
+    for entry in ("Project", "get_project", "init_project"):
+        with scratch.fresh("c02r") as base:
+            d = os.path.join(base, "proj")
+            os.makedirs(os.path.join(base, "elsewhere"))
+            signac.init_project(d)
+            cwd0 = os.getcwd()
+            try:
+                os.chdir(base)
+                prel = {"Project": signac.Project, "get_project": signac.get_project, "init_project": signac.init_project}[entry]("proj")
+                os.chdir(os.path.join(base, "elsewhere"))
+                prel.open_job(copy.deepcopy(sp)).init()
+                with prel.open_job(copy.deepcopy(sp)):
+                    prel.open_job(copy.deepcopy(sp)).init()
+            finally:
+                os.chdir(cwd0)
+            snap = sorted(k for k in canon.snapshot(base) if not k.startswith("proj/.signac"))
+            want_paths = sorted(["elsewhere", "proj", "proj/workspace", f"proj/workspace/{want_id}", f"proj/workspace/{want_id}/{SPF}"])
+            if snap != want_paths or [j.id for j in signac.Project(d)] != [want_id]:
+                bad("relative-project-path-follows-cwd", f"a project opened as {entry}('proj') and used after chdir left {snap}, "
+                    f"expected {want_paths}", want_paths, snap, entry=entry)
+    return {"cls": c01._shape_class(sp), "viol": viol, "n": 15, "nt": jid, "sample": {"statepoint": sp, "id": jid}}
 
 
 # ------------------------------------------------------------------ (b) prefix resolution
